@@ -141,7 +141,8 @@ pub fn gen_layout(p: &Prog, t: &mut Tape, style: Style) -> Vec<Gap> {
             let blanks = fg.rsplit('\n').next().unwrap_or("").to_string();
             g = Gap { nl, blanks, fixed: true, trail: String::new() };
         }
-        if must_nl && g.nl == 0 {
+        // (a `//` comment may be the last thing in the file, without a line break after it)
+        if must_nl && g.nl == 0 && i < n {
             g.nl = 1;
             g.blanks = "  ".repeat(depth);
         }
